@@ -31,11 +31,14 @@ BINARY = {2: ["add", "subtract", "dot", "deltaphi"], 3: ["add", "subtract", "dot
           4: ["add", "dot", "deltaR", "boost_p4", "deltaRapidityPhi"]}
 
 
-def sympy_vec(fl, sig, idx):
+def sympy_vec(fl, sig, idx, keywords=False):
     import sympy
     import vector.backends.sympy as VS
     names = C.signames(sig)
     syms = [sympy.Symbol(f"{n}{idx}", real=True) for n in names]
+    if keywords:       # the user-facing path: keyword coordinates (momentum spellings for momentum vectors)
+        cls = getattr(VS, ("Momentum" if fl == "m" else "Vector") + f"Sympy{len(sig) + 1}D")
+        return cls(**{(C.MOMNAME[n] if fl == "m" else n): s_ for n, s_ in zip(names, syms)}), syms
     az = {"xy": VS.AzimuthalSympyXY, "rhophi": VS.AzimuthalSympyRhoPhi}[sig[0]](syms[0], syms[1])
     cls = getattr(VS, ("Momentum" if fl == "m" else "Vector") + f"Sympy{len(sig) + 1}D")
     if len(sig) == 1:
@@ -98,6 +101,15 @@ def run(ctx):
     fam, mp = C.mpfam(50)
     r = C.rng(ctx.seed, "c08")
     problems, n, samples = [], 0, []
+    for sig in C.ALLSIGS:
+        for fl in "gm":
+            n += 1
+            try:
+                sv, _ = sympy_vec(fl, sig, 9, keywords=True)
+                if sym_sig(sv) != tuple(sig) or isinstance(sv, __import__("vector").Momentum) != (fl == "m"):
+                    problems.append(("sympy-constructor", f"keyword construction of a {fl}:{sig} SymPy vector gives {type(sv).__name__} stored as {sym_sig(sv)}"))
+            except Exception as e:  # noqa: BLE001
+                problems.append(("sympy-constructor-raises", f"{fl}:{sig}: {type(e).__name__}: {str(e)[:80]}"))
     for dim in (2, 3, 4):
         sigs = C.SIGS[dim] if ctx.tier == "thorough" else r.sample(C.SIGS[dim], min(4, len(C.SIGS[dim])))
         pts = [[repr(x) for x in p] for p in C.strata_points(dim, r, n_random=2)]
@@ -105,7 +117,11 @@ def run(ctx):
         for sig in sigs:
             fl = r.choice("gm")
             p = r.choice(pts)
-            sv, syms = sympy_vec(fl, sig, 1)
+            sv, syms = sympy_vec(fl, sig, 1, keywords=True)
+            n += 1
+            if sym_sig(sv) != tuple(sig) or isinstance(sv, __import__("vector").Momentum) != (fl == "m"):
+                problems.append(("sympy-constructor", f"keyword construction of a {fl}:{sig} SymPy vector gives {type(sv).__name__} stored as {sym_sig(sv)}"))
+                sv, syms = sympy_vec(fl, sig, 1)
             nv = C.from_cart(fam, fl, sig, [mp.mpf(x) for x in p], mp)
             subs = {s: sympy.Float(str(c), 50) for s, c in zip(syms, C.stored(nv))}
             scale = max(abs(mp.mpf(x)) for x in p)
